@@ -294,7 +294,7 @@ def short_script(rng, f, ch, filehex=None):
     b = WC.block_hint(f)
     n = rng.choice([1, b, b + 1, 2 * b + 3])
     n = min(n, 700)
-    vox = f.codec == 0x21
+    vox = False      # KF-VOX-ODD is repaired: OKI/VOX takes odd item counts like every other codec
     if vox:
         n += (n * ch) % 2 + 2
     ty = rng.choice(["s16", "s32", "f32"])
@@ -399,13 +399,11 @@ def prelude_script(ctx, fs, stride):
         ch = min(f.maxch, 2)
         b = WC.block_hint(f)
         fr = min(b + 3, 600)
-        if f.codec == 0x21:
-            fr += (fr * ch) % 2          # KF-VOX-ODD: keep to even item counts
         L.append("open h0 s0 w fmt=%08x ch=%d sr=8000" % (f.word, ch))
         L.append(S.w_line("h0", "s16", "f", fr, WC.values_for(rng, f, "s16", fr * ch)))
         L.append("close h0")
         L.append(("open h0 s0 r fmt=%08x ch=%d sr=8000" % (f.word, ch)) if f.major == 0x04 else "open h0 s0 r")
-        L.append("r h0 s32 f %d" % (fr + 2 if f.codec != 0x21 else fr))
+        L.append("r h0 s32 f %d" % (fr + 2))
         L.append("close h0")
         if rng.random() < 0.1:
             L.append("open h8 s1 r")
